@@ -21,8 +21,14 @@
       `other_oserror_returns_port`, `listener_port_returned`, `quiescent_pool_full_partial`.
     * 421 can be answered although a port of the pool was never tried (`premature_421`, witness);
       `exhaustion_tries_every_port_partial` says when the search is complete.
+    * pipelined passive commands of ONE session (every command is its own task; `Model.PassiveRace`, a counter
+      abstraction with an arbitrary scheduler): `pipelined_passive_conserves` - with the per-connection lock of
+      the source (`fact_passive_section_locked`, regenerated) no schedule of any number of pipelined PASV/EPSV
+      replaces a listener, so the sequential `Model.PortPool.step` is what a batch amounts to;
+      `old_pipelined_passive_loses_port` keeps the witness of the defect that was repaired (F16, /repo 8fa26b7).
 -/
 import AioftpModel.Lemmas.PortPool
+import AioftpModel.Lemmas.PassiveRace
 
 namespace C11
 open Model.PortPool
@@ -317,5 +323,59 @@ theorem duplicate_ports_as_coded :
         [.connect, .connect, .pasv 0, .started 0 .ok, .pasv 1, .started 1 .addrInUse, .finish 0]
       = ({ pool := [(0, 5000), (2, 5000)], sessions := [.gone, .gone] },
           [.none, .none, .none, .created, .none, .noFreePorts, .none]) := by decide
+
+/-! ### pipelined passive commands of one session (every command runs as its own task) -/
+
+section pipelined
+open Model.PassiveRace
+
+/-- obligation over the regenerated source: PASV and EPSV test for a listener, start one and record it inside
+    `async with` on a per-connection lock that the dispatcher creates with the connection -/
+theorem fact_passive_section_locked : Generated.passiveStartLocked = true := by decide
+
+/-- **pipelined_passive_conserves** (all schedules, any number of pipelined commands, any pool): as the source is
+    now, however the handlers of `n` pipelined PASV/EPSV of one session are interleaved, no listener is ever
+    replaced (nothing leaks), at most one start-up is asleep at any moment, every port the state holds was
+    configured, and their number never changes. -/
+theorem pipelined_passive_conserves (ports : List Nat) (n : Nat) (evs : List Ev) :
+    (runNow ports n evs).leaked = [] ∧
+    (runNow ports n evs).starting.length ≤ 1 ∧
+    (runNow ports n evs).total = ports.length ∧
+    (∀ p ∈ (runNow ports n evs).ports, p ∈ ports) := by
+  unfold runNow
+  rw [fact_passive_section_locked]
+  have hI := run_inv (init ports n) evs (init_inv ports n)
+  refine ⟨hI.noLeak, by have := hI.one; omega, ?_, ?_⟩
+  · rw [run_total]; simp [init, St.total]
+  · intro p hp
+    have := run_ports_subset true (init ports n) evs p hp
+    simpa [init, St.ports] using this
+
+/-- once the batch is over, the pool and the session's one listener account for every configured port -/
+theorem pipelined_passive_quiescent (ports : List Nat) (n : Nat) (evs : List Ev)
+    (hq : (runNow ports n evs).quiescent) :
+    (runNow ports n evs).pool.length + (runNow ports n evs).listener.toList.length = ports.length := by
+  obtain ⟨hl, _, ht, _⟩ := pipelined_passive_conserves ports n evs
+  obtain ⟨_, _, hs⟩ := hq
+  simp only [St.total, hl, hs, List.length_nil] at ht
+  omega
+
+/-- the batch does what one command after the other does: with a free port the first command through the region
+    starts the listener and every later one finds it (witness on three pipelined commands, two schedules) -/
+theorem pipelined_passive_examples :
+    runNow [5000, 5001] 3 [.acquire, .acquire, .check, .acquire, .finish 0, .acquire, .check, .acquire, .check] =
+      { pool := [5001], listener := some 5000, lock := false, leaked := [], waiting := 0, checking := 0, starting := [] } ∧
+    (runNow [5000, 5001] 2 [.acquire, .check, .acquire, .check, .finish 0, .acquire, .check]).quiescent := by
+  refine ⟨by decide, by decide⟩
+
+/-- **old_pipelined_passive_loses_port** (the defect that was repaired, F16): without the lock two pipelined
+    passive commands both pass the test before either start-up has returned; the second assignment replaces the
+    first listener, whose port is neither in the pool nor the session's - for good -/
+theorem old_pipelined_passive_loses_port :
+    run false (init [5000, 5001, 5002] 2) [.acquire, .acquire, .check, .check, .finish 1, .finish 0] =
+      { pool := [5002], listener := some 5001, lock := false, leaked := [5000], waiting := 0, checking := 0, starting := [] } := by
+  decide
+
+end pipelined
 
 end C11
